@@ -1,7 +1,100 @@
 //! C01 (type soundness) and C02 (no run-time panics) share the opgrid engine.
 use crate::opgrid;
-use crate::report::Report;
+use crate::report::{Report, Violation};
 use serde_json::json;
+
+/// Values returned by native functions inhabit the declared result type, judged by contents:
+/// every exported function over the values its parameter types admit (the C18 sweep), and the
+/// file-system functions over a path alphabet that reaches every kind of failure (missing,
+/// directory, not UTF-8, NUL in the path, empty path, over-long name, a full device) - including
+/// failures the operating system never sees and which therefore carry no OS error number.
+fn native_results(thorough: bool) -> (u64, Vec<Violation>) {
+    use crate::props::c18;
+    use crate::ty::{belongs, Ty};
+    use crate::val::canon_typed;
+    use simplesl::variable::{Type, Typed, Variable};
+    let ex = c18::exports();
+    let (acc, _) = c18::sweep(&ex, thorough);
+    let mut n = acc.calls;
+    let mut out: Vec<Violation> = acc
+        .violations
+        .into_iter()
+        .filter(|v| v.sig.starts_with("C18|result-not-in-declared-type|"))
+        .map(|v| Violation { sig: v.sig.replacen("C18|", "C01|native-", 1), detail: v.detail })
+        .collect();
+    let root = crate::report::verif_root().join("harness/target/scratch").join(format!("c01-fs-{}", std::process::id()));
+    let setup = |root: &std::path::Path| {
+        let _ = std::fs::remove_dir_all(root);
+        let _ = std::fs::create_dir_all(root.join("dir"));
+        let _ = std::fs::write(root.join("file.txt"), "text");
+        let _ = std::fs::write(root.join("dir/inner.txt"), "inner");
+        let _ = std::fs::write(root.join("bad_utf8"), [0xffu8, 0xfe, 0x00, 0xc3]);
+    };
+    let abs = |p: &str| root.join(p).to_string_lossy().to_string();
+    let mut paths: Vec<(String, String)> = vec![
+        ("missing".into(), abs("missing")),
+        ("dir".into(), abs("dir")),
+        ("file".into(), abs("file.txt")),
+        ("file-not-utf8".into(), abs("bad_utf8")),
+        ("under-a-file".into(), abs("file.txt/x")),
+        ("nul-inside".into(), "a\u{0}b".into()),
+        ("nul-inside-absolute".into(), abs("a\u{0}b")),
+        ("empty".into(), String::new()),
+        ("over-long-name".into(), abs(&"n".repeat(300))),
+        ("new".into(), abs("new")),
+    ];
+    // a device that accepts no data: only ever as the target of a write or copy (reading it never ends)
+    let full_device = std::path::Path::new("/dev/full").exists();
+    for (path, f) in ex.iter().filter(|(p, _)| p.starts_with("std.fs.")) {
+        let Variable::Function(f) = f else { continue };
+        let Type::Function(ft) = f.as_type() else { continue };
+        let rty = Ty::from_impl(&ft.return_type);
+        let arity = ft.params.len();
+        if arity == 0 || arity > 2 || !ft.params.iter().all(|p| Type::String.matches(p)) {
+            continue;
+        }
+        // second parameter: a path (copy, rename) or contents (write): both alphabets
+        let mut seconds: Vec<(String, String)> = paths.clone();
+        let mut paths = paths.clone();
+        if full_device && path.ends_with("write_to_file") {
+            paths.push(("full-device".into(), "/dev/full".into()));
+        }
+        if full_device && path.ends_with("copy_file") {
+            seconds.push(("full-device".into(), "/dev/full".into()));
+        }
+        seconds.push(("contents".into(), "some contents".into()));
+        seconds.push(("no-contents".into(), String::new()));
+        for (d1, p1) in &paths {
+            let tuples: Vec<(String, Vec<String>)> = if arity == 1 {
+                vec![(d1.clone(), vec![p1.clone()])]
+            } else {
+                seconds.iter().map(|(d2, p2)| (format!("{d1}, {d2}"), vec![p1.clone(), p2.clone()])).collect()
+            };
+            for (desc, args) in tuples {
+                setup(&root);
+                n += 1;
+                let got = c18::call(f, args.iter().map(|a| Variable::from(a.clone())).collect());
+                match got {
+                    Ok(v) => {
+                        if !belongs(&v, &rty) || !v.as_type().matches(&ft.return_type) {
+                            out.push(Violation {
+                                sig: format!("C01|native-result-not-in-declared-type|{path}|{desc}"),
+                                detail: json!({"kind": "fs_call", "function": path, "argument_kinds": desc, "args": args.iter().map(|a| if a.len() > 80 { format!("{}…", &a[..60]) } else { a.clone() }).collect::<Vec<_>>(), "declared_result": rty.print(), "observed": canon_typed(&v), "observed_type": Ty::from_impl(&v.as_type()).print()}),
+                            });
+                        }
+                    }
+                    Err(e) if e == "exhausted" => {}
+                    Err(e) => out.push(Violation {
+                        sig: format!("C01|native-call-failed|{path}|{desc}|{}", e.chars().take(50).collect::<String>()),
+                        detail: json!({"kind": "fs_call", "function": path, "argument_kinds": desc, "observed": e}),
+                    }),
+                }
+            }
+        }
+    }
+    let _ = std::fs::remove_dir_all(&root);
+    (n, out)
+}
 
 pub fn run(property: &str, tier: &str) -> i32 {
     let thorough = tier == "thorough";
@@ -11,8 +104,12 @@ pub fn run(property: &str, tier: &str) -> i32 {
         programs, accepted, calls, host_rejected, values, exec_errors, exhausted, panics, nodes_judged,
         closure_calls, outcome_kinds, c01, c02, samples,
     } = st;
+    let mut native_calls = 0u64;
     if property == "C01" {
         report.violation_set(c01);
+        let (n, v) = crate::core::on_big_stack(move || native_results(thorough));
+        native_calls = n;
+        report.violations(v);
     } else {
         report.violation_set(c02);
     }
@@ -25,6 +122,7 @@ pub fn run(property: &str, tier: &str) -> i32 {
         "programs_accepted": accepted,
         "host_calls": calls,
         "closure_calls": closure_calls,
+        "native_function_calls_judged (stdlib sweep + file-system functions over the failure path alphabet; C01 only)": native_calls,
         "host_rejected_argument_tuples": host_rejected,
         "completed_with_value": values,
         "documented_errors": exec_errors,
